@@ -119,15 +119,18 @@ theorem check_good (f ch sr : Int) (hi : Internal f) (h : check f ch sr = true)
 
 /-! ## known-finding classes (exactly the excluded regions of the partial theorems) -/
 
-/-- KF-C10-rate0: a sample rate of 0 passes `sf_format_check` but `validate_sfinfo` (or a division in
-    the HTK / SDS / VOC header writer) stops the open — except where the container repairs the rate -/
+/-- KF-C10-rate0: a sample rate of 0 passes `sf_format_check` but `validate_sfinfo` stops the open — except where the
+    container repairs the rate.  (The division by the rate in the HTK / SDS / VOC header writers, which killed the process
+    before validate_sfinfo was reached, is repaired: `rate0_open_fails_cleanly`, `rate0_died_old_rule`.  The check itself
+    cannot be tightened: the library's own test-suite and examples/list_formats.c call it with a zeroed sample rate.) -/
 def KF.rateZero (f sr : Int) : Prop := sr = 0 ∧ ¬ rateRepaired f
 -- KF-C10-alac8 (DESIGN §8 #25, CAF/ALAC with more than 8 channels) is fixed in /repo by 0aa127c + e9742d9:
 -- it is no longer an excluded class; `alac_over8_rejected` below is the regression statement.
 /-- KF-C10-vox-odd (DESIGN §8 #3): OKI/VOX reports an odd item count rounded up -/
 def KF.voxOdd (f n : Int) : Prop := container f = RAW ∧ codec f = VOX_ADPCM ∧ n % 2 = 1
-/-- KF-C10-ircam-rate (DESIGN §8 #21): IRCAM keeps the rate as float32; ≥ 2^31 − 64 comes back as a negative int -/
-def KF.ircamRate (f sr : Int) : Prop := ircamRateLost f sr = true
+/-- KF-C10-ircam-rate (DESIGN §8 #21, repaired): IRCAM keeps the rate as float32; ≥ 2^31 − 64 came back as a negative
+    int before ircam_write_header capped the float -/
+def KF.ircamRate (f sr : Int) : Prop := ircamRateLostOld f sr = true
 
 instance (f sr : Int) : Decidable (KF.rateZero f sr) := by unfold KF.rateZero; infer_instance
 instance (f n : Int) : Decidable (KF.voxOdd f n) := by unfold KF.voxOdd; infer_instance
@@ -198,13 +201,34 @@ theorem reopenEndian_cases (f e : Int) (he : e = 0 ∨ e = E_LITTLE ∨ e = E_BI
 def C10_full : Prop :=
   ∀ f ch sr n : Int, Enumerated f → 0 < n → (check f ch sr = true ↔ roundTrips f ch sr n = true)
 
-/-- It fails today: some enumerated format passes the check at 0 Hz and cannot be opened (KF-C10-rate0);
-    the IRCAM rate class (`ircam_witness`) is a second, independent reason. -/
+/-- It fails today: some enumerated format passes the check at 0 Hz and cannot be opened (KF-C10-rate0).
+    The IRCAM rate class was a second, independent reason before its repair (`ircam_rate_old_rule`). -/
 theorem rate0_roundtrip_witness : ∃ m ∈ majorWords, ∃ s ∈ subtypeWords,
     Enumerated (m + s) ∧ check (m + s) 1 0 = true ∧ roundTrips (m + s) 1 0 3 = false := by decide
 
-theorem ircam_witness : ∃ m ∈ majorWords, ∃ s ∈ subtypeWords,
-    Enumerated (m + s) ∧ check (m + s) 1 2147483647 = true ∧ roundTrips (m + s) 1 2147483647 4 = false := by decide
+/-- **ircam_rate_old_rule.**  Before the repair of KF-C10-ircam-rate every point of the class passed the check and
+    produced a file that did not re-open; IRCAM / PCM_16 at 2^31 − 1 Hz is the recorded witness, and it round-trips now. -/
+theorem ircam_rate_old_rule :
+    (∀ f ch sr : Int, KF.ircamRate f sr → reopenOld f ch sr = none) ∧
+    (∃ m ∈ majorWords, ∃ s ∈ subtypeWords, Enumerated (m + s) ∧ check (m + s) 1 2147483647 = true ∧
+      KF.ircamRate (m + s) 2147483647 ∧ roundTrips (m + s) 1 2147483647 4 = true) := by
+  refine ⟨fun f ch sr h => ?_, by decide⟩
+  unfold KF.ircamRate at h
+  unfold reopenOld; simp [h]
+
+/-- **rate0_open_fails_cleanly.**  At 0 Hz no container's open dies any more: on every enumerated container × encoding,
+    every endianness word and 1, 2 or 9 channels, a point that passes the check and whose container does
+    not repair the rate is refused by sf_open with SFE_BAD_SF_INFO — `openWrite` never yields `divZero`. -/
+theorem rate0_open_fails_cleanly :
+    ∀ m ∈ majorWords, ∀ s ∈ subtypeWords, ∀ e ∈ ([0, E_LITTLE, E_BIG, E_CPU] : List Int), ∀ ch ∈ ([1, 2, 9] : List Int),
+      openWrite (m + s + e) ch 0 ≠ .divZero ∧
+      (check (m + s + e) ch 0 = true → ¬ rateRepaired (m + s + e) → openWrite (m + s + e) ch 0 = .badSfInfo) := by decide +kernel
+
+/-- **rate0_died_old_rule.**  The points at which the header writer used to divide by the rate (HTK; SDS with a legal
+    bit width; VOC 8-bit PCM with one or two channels) pass the check, and sf_open used to die there. -/
+theorem rate0_died_old_rule :
+    ∃ m ∈ majorWords, ∃ s ∈ subtypeWords, Enumerated (m + s) ∧ check (m + s) 1 0 = true ∧ diedOld (m + s) 1 0 = true ∧
+      openWrite (m + s) 1 0 = .badSfInfo := by decide
 
 theorem C10_fails : ¬ C10_full := by
   intro h
@@ -232,7 +256,7 @@ theorem roundTrips_opened (f ch sr n : Int) (h : roundTrips f ch sr n = true) : 
   · unfold roundTrips outcome at h; simp [ho] at h
 
 theorem C10_partial (f ch sr n : Int) (he : Enumerated f) (hn : 0 < n)
-    (k1 : ¬ KF.rateZero f sr) (k3 : ¬ KF.voxOdd f n) (k4 : ¬ KF.ircamRate f sr) :
+    (k1 : ¬ KF.rateZero f sr) (k3 : ¬ KF.voxOdd f n) :
     check f ch sr = true ↔ roundTrips f ch sr n = true := by
   constructor
   · intro h
@@ -253,10 +277,7 @@ theorem C10_partial (f ch sr n : Int) (he : Enumerated f) (hn : 0 < n)
       · have : ¬ n % 2 = 1 := fun h1 => k3 ⟨hv.1, hv.2, h1⟩
         simp [hv]; omega
       · simp [hv]
-    have h4 : ircamRateLost f sr = false := by
-      cases hx : ircamRateLost f sr
-      · rfl
-      · exact absurd hx k4
+    have h4 : ircamRateLost f sr = false := rfl
     have hre := container_rebuilt f _ (reopenEndian_cases f _ ge)
     unfold roundTrips outcome reopen tmpLeft sameEncoding
     simp [ha.1, hw, h4, hre.1, hre.2, gch]
@@ -268,21 +289,18 @@ theorem C10_partial (f ch sr n : Int) (he : Enumerated f) (hn : 0 < n)
 /-- non-vacuity of `C10_partial`: its hypotheses hold on ordinary points, both sides occur -/
 example :
     ∃ m ∈ majorWords, ∃ s ∈ subtypeWords, Enumerated (m + s) ∧ ¬ KF.rateZero (m + s) 8000
-      ∧ ¬ KF.voxOdd (m + s) 3 ∧ ¬ KF.ircamRate (m + s) 8000
+      ∧ ¬ KF.voxOdd (m + s) 3
       ∧ roundTrips (m + s) 1 8000 3 = true ∧ roundTrips (m + s) 1025 8000 3 = false := by decide
 
 /-- every excluded point with check TRUE really fails (the excluded region is not wider than the defects);
     the rate-0 class is covered by `check_iff_writable_fails` and the exhaustive grid -/
 theorem kf_exact (f ch sr n : Int) (hn : 0 < n) (h : check f ch sr = true)
-    (hk : KF.voxOdd f n ∨ KF.ircamRate f sr) : roundTrips f ch sr n = false := by
-  rcases hk with hk | hk
-  · obtain ⟨h1, h2, h3⟩ := hk
-    unfold roundTrips outcome writeRet
-    by_cases hi : installed f ch sr = true
-    · simp [hi, h1, h2]; intro _ hw; omega
-    · simp [hi]; intro _ hw; omega
-  · unfold KF.ircamRate at hk
-    unfold roundTrips outcome reopen; simp [hk]
+    (hk : KF.voxOdd f n) : roundTrips f ch sr n = false := by
+  obtain ⟨h1, h2, h3⟩ := hk
+  unfold roundTrips outcome writeRet
+  by_cases hi : installed f ch sr = true
+  · simp [hi, h1, h2]; intro _ hw; omega
+  · simp [hi]; intro _ hw; omega
 
 /-! ## the enumeration lists -/
 
